@@ -145,7 +145,12 @@ loop:
 		if err != nil && err.Cause() != errLoopBreak && err.Cause() != errLoopContinueLoop {
 			return err
 		}
-		if err := decorator.after(w, i, l); err != nil {
+		n := l
+		if err != nil && err.Cause() == errLoopBreak {
+			// the loop ends with this item: a table row that is open is closed after it
+			n = i + 1
+		}
+		if err := decorator.after(w, i, n); err != nil {
 			return err
 		}
 		switch {
